@@ -16,7 +16,17 @@ Inductive mop := MInsert (kb v : list N) | MGet (kb : list N) | MRemove (kb : li
 (* BClear = `<StorageKey<_> as StorableSlice<_>>::clear(storage.f)`; BClearKey = `storage.f.clear()`, which
    method resolution binds to the inherent StorageKey::clear (zero-sized T: clear_quads::<u64>(field_id, 0)) *)
 Inductive bop := BWrite (bs : list N) | BRead | BClear | BClearKey | BLen.
+(* StorageVec<struct of w words> (reference type): values as word lists *)
+Inductive wop :=
+| WPush (v : list N) | WPop | WGet (i : N) | WSet (i : N) (v : list N) | WInsert (i : N) (v : list N) | WRemove (i : N)
+| WSwap (i j : N) | WSwapRemove (i : N) | WLen | WFirst | WLast | WReverse | WFill (v : list N)
+| WResize (n : N) (v : list N) | WLoad.
+(* a field of a struct stored in a plain storage field: try_read() / write(v) of the StorageKey the
+   compiler builds for `storage.st.<field>` (slot = field key + o/4, offset = o mod 4 for word offset o) *)
+Inductive cop := CRead | CWrite (v : list N).
 Inductive op :=
+| OVecW (f : N) (w : nat) (o : wop)
+| OCell (f o : N) (w : nat) (isref : bool) (c : cop)
 | OVec (f : N) (o : vop)
 | OMap (f : N) (w : nat) (isref : bool) (o : mop)     (* w words per value, isref of the value type *)
 | OBytes (f : N) (o : bop)
@@ -52,6 +62,32 @@ Definition vec_step (s : store) (f : N) (o : vop) : outcome (store * list N) :=
   | VLoad => do r <- vec_load_vec H 1 s f; Ok (s, concat r)
   end.
 
+Definition vecw_step (w : nat) (s : store) (f : N) (o : wop) : outcome (store * list N) :=
+  match o with
+  | WPush v => do s' <- vec_push H w true s f v; Ok (s', [])
+  | WPop => do r <- vec_pop H w true s f; Ok (fst r, out_opt (snd r))
+  | WGet i => do r <- vec_get H w true s f i; Ok (s, out_opt2 r)
+  | WSet i v => do s' <- vec_set H w true s f i v; Ok (s', [])
+  | WInsert i v => do s' <- vec_insert H w true s f i v; Ok (s', [])
+  | WRemove i => do r <- vec_remove H w true s f i; Ok r
+  | WSwap i j => do s' <- vec_swap H w true s f i j; Ok (s', [])
+  | WSwapRemove i => do r <- vec_swap_remove H w true s f i; Ok r
+  | WLen => do n <- vec_len s f; Ok (s, [n])
+  | WFirst => do r <- vec_first H w true s f; Ok (s, out_opt2 r)
+  | WLast => do r <- vec_last H w true s f; Ok (s, out_opt2 r)
+  | WReverse => do s' <- vec_reverse H w true s f; Ok (s', [])
+  | WFill v => do s' <- vec_fill H w true s f v; Ok (s', [])
+  | WResize n v => do s' <- vec_resize H w true s f n v; Ok (s', [])
+  | WLoad => do r <- vec_load_vec H w s f; Ok (s, concat r)
+  end.
+
+Definition cell_step (s : store) (f o : N) (w : nat) (isref : bool) (c : cop) : outcome (store * list N) :=
+  do slot <- addk f (o / 4);
+  match c with
+  | CRead => do r <- read_quads w isref s slot (o mod 4); Ok (s, out_opt r)
+  | CWrite v => do s' <- write_quads isref s slot (o mod 4) v; Ok (s', [])
+  end.
+
 Definition map_step (w : nat) (isref : bool) (s : store) (f : N) (o : mop) : outcome (store * list N) :=
   match o with
   | MInsert kb v => do s' <- map_insert H isref s f kb v; Ok (s', [])
@@ -73,6 +109,8 @@ Definition bytes_step (s : store) (f : N) (o : bop) : outcome (store * list N) :
 
 Definition step (s : store) (o : op) : outcome (store * list N) :=
   match o with
+  | OVecW f w wo => vecw_step w s f wo
+  | OCell f o w isref c => cell_step s f o w isref c
   | OVec f vo => vec_step s f vo
   | OMap f w isref mo => map_step w isref s f mo
   | OBytes f bo => bytes_step s f bo
